@@ -489,6 +489,14 @@ pub fn typed_tag_as(rec: &mut Rec, p: &str, tag: &Generic, kind: u32, opts: &Mbi
                     rec.t.push(format!("{p}.s.new"), Val::Ok);
                     let v = catch(|| Val::U(it.len() as u64)).unwrap_or(Val::Panic);
                     rec.t.push(format!("{p}.s.len0"), v);
+                    // name() follows an address stored in the tag: only where every
+                    // header refers to the harness-owned names buffer
+                    let names_ok = {
+                        let sz = tag.header().size as usize;
+                        let raw = unsafe { core::slice::from_raw_parts(tag as *const Generic as *const u8, sz.min(1 << 24)) };
+                        let (grub, spec) = crate::elfnames::names_mode(raw);
+                        grub || spec
+                    };
                     if d {
                         dbg(rec, format!("{p}.s.dbg"), &it, true);
                     }
@@ -519,6 +527,12 @@ pub fn typed_tag_as(rec: &mut Rec, p: &str, tag: &Generic, kind: u32, opts: &Mbi
                                 u!(rec, q, "addralign", s.addralign());
                                 u!(rec, q, "~end", s.end_address());
                                 u!(rec, q, "len_after", it.len());
+                                if names_ok {
+                                    rec.call(format!("{q}.name"), || match s.name() {
+                                        Ok(n) => Val::Txt(crate::bytes::hex(n.as_bytes())),
+                                        Err(_) => Val::ErrUtf8,
+                                    });
+                                }
                                 dbg(rec, format!("{q}.dbg"), &s, d);
                                 if d && j < 2 {
                                     dbg(rec, format!("{q}.dbg.iter"), &it, true);
